@@ -8,7 +8,7 @@ demo.*, meta.json), in ONE scratch worktree /tmp/cs (never /repo):
 Confirmed seeds are copied to /verif/seeded/<tag>/ with a meta.json that records what was run."""
 import json, os, re, shutil, subprocess, sys, glob
 WT = "/tmp/cs"
-ENV = dict(os.environ, CARGO_NET_OFFLINE="true")
+ENV = dict(os.environ, CARGO_NET_OFFLINE="true", AST_GREP="/tmp/cs/target/debug/ast-grep")
 def sh(cmd, **kw):
     return subprocess.run(cmd, shell=isinstance(cmd, str), capture_output=True, text=True, env=ENV, **kw)
 def ensure_wt():
